@@ -133,6 +133,15 @@ def goInRange {α : Type} [GoLen α] (l : α) (i : Int) : Bool := decide (0 ≤ 
 /-- `x[lo:hi]` does not panic (slices of strings and of slices that were never longer than they are now) -/
 def goSliceOk {α : Type} [GoLen α] (l : α) (lo hi : Int) : Bool := decide (0 ≤ lo ∧ lo ≤ hi ∧ hi ≤ GoLen.len l)
 
+/-- `lcontext.LContext` -/
+structure GoLContext where
+  AfterContext : Int := 0
+  BeforeContext : Int := 0
+  MaxCount : Int := 0
+  deriving Repr, DecidableEq
+
+instance : GoZero GoLContext := ⟨{}⟩
+
 /-- `regex.Regex` is opaque: a compiled expression identified by its source text and flag names -/
 structure GoRegex where
   src : GoString := []
@@ -171,6 +180,8 @@ structure Ext where
   /-- a method of the translated package that is outside the subset (reflection, file I/O) and
       returns a list of strings, by its name -/
   strList : GoString → List GoString := fun _ => []
+  /-- `base64.StdEncoding.DecodeString` -/
+  base64Decode : GoString → GoString × GoErr := fun s => (s, none)
   /-- rounds a `for cond {…}` loop may take -/
   fuel : Nat := 0
   /-- `funcs.NewFunctionStack`: the function names, the innermost argument, an error -/
